@@ -348,6 +348,12 @@ func (u *upstream) handleRedirection(req *simpleRequest, resp *RespValue) {
 		))
 		u.MakeRequestToHost(hostAddr, askingReq)
 		u.MakeRequestToHost(hostAddr, req)
+	default:
+		// NOTE: the caller matches the prefix with unicode case folding,
+		// which also accepts spellings like "AſK"; such a reply is no
+		// redirection, hand it over like any other error.
+		req.SetResponse(resp)
+		return
 	}
 	u.triggerSlotsRefresh()
 }
